@@ -93,8 +93,8 @@ def read(circ, s=None):
     return out
 
 
-def row(circ, s, src):
-    noisy = apply_noise(circ, qubit_index_map={k: QubitIDObj(v) for k, v in s['index_map'].items()}, noise_settings=real_settings(s))
+def row(circ, s, src, ns=None):
+    noisy = apply_noise(circ, qubit_index_map={k: QubitIDObj(v) for k, v in s['index_map'].items()}, noise_settings=real_settings(s) if ns is None else ns)
     ranks = sorted(s['durs'], key=lambda k: s['durs'][k])
     out = read(noisy, s)
     # an idle channel of key "none" does not depend on T1/T2: normalise the expectation side the same way (t1 = t2 = 0)
@@ -137,6 +137,18 @@ def main(out, nseq, seed):
     for name, c in circs:
         for s in SETTINGS:
             rows.append(guarded(row, c, s, name, _label='%s / %s' % (name, s['name'])))
+    # sessions: ONE NoiseSettings object reused over several calls whose qubit_index_map differs (rotated, then the original again):
+    # what a call configures must come from its own arguments, not from an earlier call with the same settings object
+    for s in SETTINGS:
+        if len(s['index_map']) < 2:
+            continue
+        ns = real_settings(s)
+        keys, vals = list(s['index_map']), list(s['index_map'].values())
+        maps = [dict(zip(keys, vals)), dict(zip(keys, vals[1:] + vals[:1])), dict(zip(keys, vals))]
+        for name, c in circs[:6]:
+            for j, m in enumerate(maps):
+                s2 = dict(s, index_map=m, name='%s-session%d' % (s['name'], j))
+                rows.append(guarded(row, c, s2, name, ns=ns, _label='%s / %s' % (name, s2['name'])))
     json.dump(rows, open(out, 'w'))
     print(len(rows))
 
